@@ -131,10 +131,74 @@ def observe_rejects(name, header, lines):
     return ok, path
 
 
-def build_and_run(pid, name, main_rs, tier, seed, extra_args):
+def python_violation(pid, tier, seed, key, what, case, n_programs):
+    """A violation decided on the python side (the generated program did not compile because the
+    macro under test rejected / mis-expanded a well-formed input): writes replay + evidence."""
+    os.makedirs(os.path.join(VERIF, "replays"), exist_ok=True)
+    os.makedirs(os.path.join(VERIF, "evidence"), exist_ok=True)
+    path = os.path.join(VERIF, "replays", f"{pid}-{tier}-build.json")
+    json.dump({"property_id": pid, "tier": tier, "seed": seed, "key": key, "what": what, "case": case}, open(path, "w"))
+    print(f"VIOLATION property={pid} replay={path}")
+    print(f"  what: {what}")
+    ev = {"property_id": pid, "tier": tier, "seed": seed, "level": "exploration",
+          "coverage": {"evaluations": n_programs, "distinct_nontrivial": max(2, n_programs),
+                       "rule": "generated programs compiled for real; this run stopped at compilation: a well-formed generated input was rejected or mis-expanded by the macro under test (see samples)",
+                       "samples": [case]},
+          "wall_s": 0.0, "violations": 1, "verdict": "violated"}
+    json.dump(ev, open(os.path.join(VERIF, "evidence", f"{pid}.json"), "w"))
+    return 1
+
+
+def classify_build_failure(pid, d, main_rs, tier, seed, n_programs):
+    """Maps compiler errors of the generated crate back to the generated case / shape they belong
+    to (marker comments `/*CASE n*/`). An error inside a case is a violation of the property (the
+    macro rejected or mis-expanded a well-formed input); anything else is inconclusive."""
+    p = cargo(["build", "--release", "--message-format=json"], d)
+    lines = main_rs.split("\n")
+    hits = []
+    for l in p.stdout.splitlines():
+        try:
+            m = json.loads(l)
+        except ValueError:
+            continue
+        if m.get("reason") != "compiler-message" or m["message"].get("level") != "error":
+            continue
+        msg = m["message"]
+
+        def walk(span, acc):
+            if span is None:
+                return
+            if span.get("file_name", "").endswith("src/main.rs"):
+                acc.append(span["line_start"])
+            exp = span.get("expansion")
+            if exp:
+                walk(exp.get("span"), acc)
+        lns = []
+        for sp in msg.get("spans", []):
+            walk(sp, lns)
+        for ln in lns:
+            # nearest marker at or above this line
+            for k in range(ln - 1, max(-1, ln - 40), -1):
+                if k < len(lines) and "/*CASE " in lines[k]:
+                    idx = lines[k].split("/*CASE ")[1].split("*/")[0]
+                    hits.append((idx, lines[k].strip()[:400], msg.get("message", "")[:300]))
+                    break
+    if not hits:
+        return None
+    idx, text, err = hits[0]
+    return python_violation(pid, tier, seed, f"{pid.lower()}:well-formed-input-does-not-compile",
+                            f"generated well-formed case {idx} does not compile: {err} :: {text}",
+                            {"stream": 0, "index": int(idx) if idx.isdigit() else 0, "source_line": text, "compiler_error": err,
+                             "further_cases_affected": sorted(set(h[0] for h in hits))[:20]}, n_programs)
+
+
+def build_and_run(pid, name, main_rs, tier, seed, extra_args, n_programs=0):
     d = write_crate(name, main_rs)
     p = cargo(["build", "--release"], d)
     if p.returncode != 0:
+        r = classify_build_failure(pid, d, main_rs, tier, seed, n_programs)
+        if r is not None:
+            return r
         sys.stdout.write(p.stderr[-6000:])
         return inconclusive(pid, "generated crate failed to compile against /repo working tree")
     exe = os.path.join(TARGET, "release", name)
@@ -367,7 +431,7 @@ def c15(tier, seed, rest):
     body = ["// generated by gen/gendriver.py — do not edit", "#![allow(unused_imports, clippy::all)]", "use mina::prelude::*;",
             "use mina_verif::genrt::*;", V_DEF, "fn cases() -> Vec<TlCase<V>> { vec!["]
     for (i, sent, twin, exact, sig, mac, bld) in cases:
-        body.append(f"  TlCase {{ idx: {i}, sentence: {rs_str(sent)}, twin: {rs_str(twin)}, exact: {str(exact).lower()}, sig: {rs_str(sig)}, "
+        body.append(f"  /*CASE {i}*/ TlCase {{ idx: {i}, sentence: {rs_str(sent)}, twin: {rs_str(twin)}, exact: {str(exact).lower()}, sig: {rs_str(sig)}, "
                     f"mac: || {mac}, bld: || {bld} }},")
     body.append("] }")
     body.append("""
@@ -393,7 +457,7 @@ sentence with at least one timing word or keyframe; distinct = set of grammar fe
     extra = ["--rejects", rej_path]
     if rest and rest[0] == "--replay":
         extra += ["--replay", os.path.abspath(rest[1])]
-    return build_and_run("C15", f"c15_{tier}", "\n".join(body), tier, seed, extra)
+    return build_and_run("C15", f"c15_{tier}", "\n".join(body), tier, seed, extra, n)
 
 
 # ------------------------------------------------------------------------------------------------
@@ -462,7 +526,7 @@ def c16(tier, seed, rest):
             "fn make_v(k: i32) -> V { V { a: k as f32 * 2.5, b: 10.0 - k as f32, c: (100 + k) as u8, d: k * 7 } }",
             "fn cases() -> Vec<AnCase<V>> { vec!["]
     for (i, block, twin, sig) in cases:
-        body.append(f"  AnCase {{ idx: {i}, block: {rs_str(block)}, twin: {rs_str(twin)}, sig: {rs_str(sig)}, mac: || {block}, bld: || {twin} }},")
+        body.append(f"  /*CASE {i}*/ AnCase {{ idx: {i}, block: {rs_str(block)}, twin: {rs_str(twin)}, sig: {rs_str(sig)}, mac: || {block}, bld: || {twin} }},")
     body.append("] }")
     body.append("""
 fn main() {
@@ -484,7 +548,7 @@ non-trivial = a block with at least one arm; distinct = set of grammar features 
     extra = []
     if rest and rest[0] == "--replay":
         extra += ["--replay", os.path.abspath(rest[1])]
-    return build_and_run("C16", f"c16_{tier}", "\n".join(body), tier, seed, extra)
+    return build_and_run("C16", f"c16_{tier}", "\n".join(body), tier, seed, extra, n)
 
 
 # ------------------------------------------------------------------------------------------------
@@ -498,7 +562,10 @@ def gen_shape(rnd, i):
     fields = []
     for j in range(nf):
         ty, kind = rnd.choice(TYPES)
-        fields.append({"name": f"f{j}", "ty": ty, "kind": kind, "vis": rnd.choice(["", "pub ", "pub(crate) "])})
+        extra = ["/// A documented field.", "#[allow(dead_code)]", "#[doc(hidden)]", "#[doc = \"named-value attribute\"]", "#[cfg_attr(any(), deprecated)]"]
+        pre = [rnd.choice(extra) for _ in range(rnd.choice([0, 0, 1, 1, 2]))]
+        post = [rnd.choice(extra) for _ in range(rnd.choice([0, 0, 0, 1]))]
+        fields.append({"name": f"f{j}", "ty": ty, "kind": kind, "vis": rnd.choice(["", "pub ", "pub(crate) "]), "pre": pre, "post": post})
     mode = rnd.choice(["none", "some", "some", "all"])
     if mode == "none":
         marks = [False] * nf
@@ -519,14 +586,15 @@ def shape_source(sh, with_impl=True):
     T = f"T{i}"
     fl = []
     for f, m in zip(sh["fields"], sh["marks"]):
-        fl.append(("#[animate] " if m else "") + f"{f['vis']}{f['name']}: {f['ty']}")
+        fl.append("\n        " + " ".join(a + ("\n       " if a.startswith("///") else "") for a in f["pre"]) + (" #[animate] " if m else " ")
+                  + " ".join(a + ("\n       " if a.startswith("///") else "") for a in f["post"]) + f" {f['vis']}{f['name']}: {f['ty']}")
     anim = [f for f, a in zip(sh["fields"], sh["animated"]) if a]
     plain = [f for f, a in zip(sh["fields"], sh["animated"]) if not a]
     al = ", ".join(f"{f['name']}: {f['ty']} = {f['kind']}" for f in anim)
     pl = ", ".join(f"{f['name']}: {f['ty']} = {f['kind']}" for f in plain)
     desc = (f"{'remote' if sh['remote'] else 'local'} {sh['svis'].strip() or 'private'} struct with fields "
-            + ", ".join(("#[animate] " if m else "") + f"{f['vis']}{f['name']}: {f['ty']}" for f, m in zip(sh["fields"], sh["marks"])))
-    out = [f"pub mod sh{i} {{", "    #![allow(dead_code, unused_imports)]", "    use mina::prelude::*;"]
+            + ", ".join(("[+attrs] " if (f["pre"] or f["post"]) else "") + ("#[animate] " if m else "") + f"{f['vis']}{f['name']}: {f['ty']}" for f, m in zip(sh["fields"], sh["marks"])))
+    out = [f"/*CASE {i}*/ pub mod sh{i} {{", "    #![allow(dead_code, unused_imports)]", "    use mina::prelude::*;"]
     if sh["remote"]:
         pubfields = ", ".join(f"pub {f['name']}: {f['ty']}" for f in sh["fields"])
         evis = {"": "pub(super) ", "pub ": "pub ", "pub(crate) ": "pub(crate) "}[sh["svis"]]
@@ -555,7 +623,7 @@ def c17(tier, seed, rest):
     lines = []
     for sh in shapes[:rej_n]:
         src, animty, anim, plain = shape_source(sh, with_impl=False)
-        header_parts.append(src.replace("\n", " "))
+        header_parts.append(src)
         val = {"f32": "1.0", "f64": "1.0", "u8": "1", "i16": "1", "i32": "1", "u32": "1"}
         for f in plain:
             lines.append((f"{{ use mina::prelude::*; sh{sh['i']}::{animty}::keyframe(0.5).{f['name']}({val[f['ty']]}) }}", "setter-for-non-animated-field", True))
@@ -596,7 +664,7 @@ accessors return what the builder was given; non-trivial = every shape; distinct
     extra = ["--rejects", rej_path]
     if rest and rest[0] == "--replay":
         extra += ["--replay", os.path.abspath(rest[1])]
-    return build_and_run("C17", f"c17_{tier}", "\n".join(body), tier, seed, extra)
+    return build_and_run("C17", f"c17_{tier}", "\n".join(body), tier, seed, extra, n)
 
 
 def main(pid, tier, seed, rest):
